@@ -26,6 +26,7 @@ import (
 // ---- a link that can be cut; sessions are re-established while it is up
 
 type mirEnd struct {
+	side   int // which node sends through this end
 	in     chan []byte
 	peer   *mirEnd
 	hub    *mirHub
@@ -43,6 +44,17 @@ func (e *mirEnd) Send(p []byte) error {
 		return nil
 	}
 	b := append([]byte{}, p...)
+	if e.side == 1 && len(p) < 600 && atomic.LoadInt32(&e.hub.lateSmall) != 0 {
+		go func() {
+			time.Sleep(350 * time.Millisecond)
+			select {
+			case e.peer.in <- b:
+			case <-e.peer.closed:
+			default:
+			}
+		}()
+		return nil
+	}
 	select {
 	case e.peer.in <- b:
 	case <-e.peer.closed:
@@ -76,6 +88,9 @@ func (e *mirEnd) closeQuiet() error {
 // mirHub pairs the two sides: whenever both ask for a session and the link is up, each gets one end of a fresh pair
 type mirHub struct {
 	cut  int32
+	// short datagrams from the executing node (side 1) arrive 350 ms late, long ones at once: a reply line and the
+	// data that follows it, sent a quarter of a second apart, then become readable together
+	lateSmall int32
 	mu   sync.Mutex
 	wait [2]chan *mirEnd
 }
@@ -123,8 +138,8 @@ func (h *mirHub) join(side int, ctx context.Context) *mirEnd {
 	other := 1 - side
 	if h.wait[other] != nil {
 		// the other side is waiting: make the pair
-		a := &mirEnd{in: make(chan []byte, 8192), hub: h, closed: make(chan struct{})}
-		b := &mirEnd{in: make(chan []byte, 8192), hub: h, closed: make(chan struct{})}
+		a := &mirEnd{side: side, in: make(chan []byte, 8192), hub: h, closed: make(chan struct{})}
+		b := &mirEnd{side: other, in: make(chan []byte, 8192), hub: h, closed: make(chan struct{})}
 		a.peer, b.peer = b, a
 		w := h.wait[other]
 		h.wait[other] = nil
@@ -171,6 +186,9 @@ type mirEv struct {
 
 type mirArgs struct {
 	Events []mirEv `json:"events"`
+	// after the local copy is complete: the link goes down, the submitting node is stopped and started again on
+	// its data directory; the unit must still report its final state and size and hand out its complete output
+	RestartA bool `json:"restart_a"`
 }
 
 func mirByte(i int64) byte { return byte((i*13 + i/253) % 256) }
@@ -205,7 +223,9 @@ func mirApply(op string, raw json.RawMessage) interface{} {
 	if err := nB.AddBackend(&mirBackend{hub: hub, side: 1}); err != nil {
 		return map[string]interface{}{"error": err.Error()}
 	}
-	wA, err := New(ctx, nA, path.Join(dir, "a"))
+	ctxA, cancelA := context.WithCancel(ctx)
+	defer cancelA()
+	wA, err := New(ctxA, nA, path.Join(dir, "a"))
 	if err != nil {
 		return map[string]interface{}{"error": err.Error()}
 	}
@@ -314,6 +334,8 @@ func mirApply(op string, raw json.RawMessage) interface{} {
 			atomic.StoreInt32(&hub.cut, 1)
 		case "restore":
 			atomic.StoreInt32(&hub.cut, 0)
+		case "latesmall":
+			atomic.StoreInt32(&hub.lateSmall, 1)
 		}
 	}
 	atomic.StoreInt32(&hub.cut, 0)
@@ -351,8 +373,53 @@ func mirApply(op string, raw json.RawMessage) interface{} {
 			}
 		}
 	}
-	return map[string]interface{}{"total": total, "local_len": localLen, "equal": equal, "caught_up": caught,
+	out := map[string]interface{}{"total": total, "local_len": localLen, "equal": equal, "caught_up": caught,
 		"not_prefix": notPrefix, "local_state": aState, "local_size": aSize, "nontrivial": true}
+	if a.RestartA && caught {
+		atomic.StoreInt32(&hub.cut, 1)
+		cancelA()
+		time.Sleep(300 * time.Millisecond)
+		wA2, err := New(ctx, nA, path.Join(dir, "a"))
+		if err != nil {
+			return map[string]interface{}{"error": "restart: " + err.Error()}
+		}
+		MainInstance = wA2
+		ids := wA2.ListKnownUnitIDs() // the node looks at its data directory
+		time.Sleep(1500 * time.Millisecond)
+		after := map[string]interface{}{"listed": false, "wt": "", "node": "", "remote_unit": false, "state": -1, "size": int64(-1), "local_len": int64(-1), "equal": false, "results_len": -1}
+		for _, id := range ids {
+			if id == localID {
+				after["listed"] = true
+			}
+		}
+		if st, err := wA2.UnitStatus(localID); err == nil {
+			after["state"], after["size"], after["wt"] = st.State, st.StdoutSize, st.WorkType
+			if red, ok := st.ExtraData.(*RemoteExtraData); ok && red != nil {
+				after["node"], after["remote_unit"] = red.RemoteNode, red.RemoteUnitID == remoteID
+			}
+		}
+		if b, err := os.ReadFile(aOut); err == nil {
+			after["local_len"] = int64(len(b))
+			eq := int64(len(b)) == total
+			for i, c := range b {
+				if c != mirByte(int64(i)) {
+					eq = false
+				}
+			}
+			after["equal"] = eq
+		}
+		rctx, rcancel := context.WithTimeout(ctx, 3*time.Second)
+		if ch, err := wA2.GetResults(rctx, localID, 0); err == nil {
+			n := 0
+			for b := range ch {
+				n += len(b)
+			}
+			after["results_len"] = n
+		}
+		rcancel()
+		out["after_restart"] = after
+	}
+	return out
 }
 
 func mirGen(v *verifRun) {
@@ -381,6 +448,30 @@ func mirGen(v *verifRun) {
 		a.Events = append(a.Events, mirEv{K: "finish"})
 		v.do(mirApply, "mirror", a)
 	}
+	// short datagrams late: the reply line of a results request and the first data arrive together
+	for i := 0; i < 1+v.n/6; i++ {
+		a := mirArgs{Events: []mirEv{{K: "latesmall"}, {K: "append", N: 2000}, {K: "record"}, {K: "sleep", N: 1500}, {K: "append", N: 3000}, {K: "record"},
+			{K: "sleep", N: 800}, {K: "finish"}}}
+		v.do(mirApply, "mirror", a)
+	}
+}
+
+// C04: the finished, fully mirrored remote unit across a restart of the submitting node with the link down
+func mirGenRestart(v *verifRun) {
+	for i := 0; i < v.n; i++ {
+		a := mirArgs{RestartA: true}
+		for k := 1 + v.rng.Intn(3); k > 0; k-- {
+			a.Events = append(a.Events, mirEv{K: "append", N: []int{500, 4000, 70000}[v.rng.Intn(3)]}, mirEv{K: "record"})
+			a.Events = append(a.Events, mirEv{K: "sleep", N: 100 + v.rng.Intn(300)})
+		}
+		a.Events = append(a.Events, mirEv{K: "finish"})
+		v.do(mirApply, "mirror", a)
+	}
+}
+
+func TestVerifMirrorRestart(t *testing.T) {
+	v := verifOpen(t, "mirror")
+	v.run(mirApply, mirGenRestart)
 }
 
 func TestVerifMirror(t *testing.T) {
